@@ -17,6 +17,18 @@ Definition close_all (s : sys) : list (chan item) :=
   map (fun p => if mem_nat (fst p) (map snd (senders s)) then close (snd p) else snd p)
       (combine (seq 0 (length (chans s))) (chans s)).
 
+(* rm_sender touches msg_senders and one channel *)
+Lemma rm_sender_frame s r :
+  senders (rm_sender s r) = del_key (senders s) (KRule r) /\ subs (rm_sender s r) = subs s /\ streams (rm_sender s r) = streams s /\
+  adds (rm_sender s r) = adds s /\ drops (rm_sender s r) = drops s /\ tasks (rm_sender s r) = tasks s /\
+  reader (rm_sender s r) = reader s /\ socket (rm_sender s r) = socket s /\ incoming (rm_sender s r) = incoming s /\
+  dead (rm_sender s r) = dead s /\ cloned (rm_sender s r) = cloned s /\ length (chans (rm_sender s r)) = length (chans s).
+Proof.
+  assert (Hl : forall (l : list (chan item)) n x, length (upd l n x) = length l).
+  { induction l as [|a l IH]; intros [|n] x; cbn; try reflexivity. now rewrite IH. }
+  unfold rm_sender. destruct (chan_of_key (senders s) (KRule r)); cbn; repeat split; try reflexivity. apply Hl.
+Qed.
+
 Definition live (s : sys) (sid : nat) (st : stream) : Prop := lookup (streams s) sid = Some st /\ lookup (drops s) sid = None.
 
 Inductive tstep (s : sys) : label -> sys -> Prop :=
@@ -86,13 +98,13 @@ Inductive tstep (s : sys) : label -> sys -> Prop :=
       tstep s (LDropSubs sid) (with_drops s1 (put (drops s1) sid (R1 c)))
   | TDropSender sid st r c : lookup (streams s) sid = Some st -> lookup (drops s) sid = Some (R1 c) -> senders_held s = false ->
       s_rule st = Some r ->
-      tstep s (LDropSender sid) (with_drops (bury (rm_sender s r c) sid st) (del (drops s) sid))
+      tstep s (LDropSender sid) (with_drops (bury (rm_sender s r) sid st) (del (drops s) sid))
   | TTaskSubsDone n r s1 : nth_error (tasks s) n = Some (r, R0) -> subs_busy s = false -> rm_apply s r = (s1, None) ->
       tstep s (LTaskSubs n) (with_tasks s1 (del_nth (tasks s) n))
   | TTaskSubsWait n r s1 c : nth_error (tasks s) n = Some (r, R0) -> subs_busy s = false -> rm_apply s r = (s1, Some c) ->
       tstep s (LTaskSubs n) (with_tasks s1 (upd (tasks s) n (r, R1 c)))
   | TTaskSender n r c : nth_error (tasks s) n = Some (r, R1 c) -> senders_held s = false ->
-      tstep s (LTaskSender n) (with_tasks (rm_sender s r c) (del_nth (tasks s) n)).
+      tstep s (LTaskSender n) (with_tasks (rm_sender s r) (del_nth (tasks s) n)).
 
 (* rm_apply leaves everything but subs and (one channel's closed flag) alone *)
 Lemma rm_apply_frame s r s1 o : rm_apply s r = (s1, o) ->
@@ -158,17 +170,32 @@ Proof.
     + eapply TDropSubsDone; eauto.
   - destruct (lookup (streams s) sid) as [st|] eqn:Es; [|discriminate]. destruct (lookup (drops s) sid) as [[|c]|] eqn:Ed; try discriminate.
     destruct (senders_held s) eqn:Eh; [discriminate|]. destruct (s_rule st) as [r|] eqn:Er; [|discriminate].
-    intros H; inversion H; subst s'. eapply TDropSender; eauto.
+    destruct (rm_sender_frame s r) as (_ & _ & _ & _ & Ed' & _). rewrite Ed'. intros H; inversion H; subst s'. eapply TDropSender; eauto.
   - destruct (nth_error (tasks s) n) as [[r [|c]]|] eqn:En; try discriminate. destruct (subs_busy s) eqn:Eb; [discriminate|].
     destruct (rm_apply s r) as [s1 [c|]] eqn:Ea; intros H; inversion H; subst s';
       destruct (rm_apply_frame _ _ _ _ Ea) as (_ & _ & _ & _ & Et & _); rewrite Et.
     + eapply TTaskSubsWait; eauto.
     + eapply TTaskSubsDone; eauto.
   - destruct (nth_error (tasks s) n) as [[r [|c]]|] eqn:En; try discriminate. destruct (senders_held s) eqn:Eh; [discriminate|].
-    intros H; inversion H; subst s'. eapply TTaskSender; eauto.
+    destruct (rm_sender_frame s r) as (_ & _ & _ & _ & _ & Et' & _). rewrite Et'. intros H; inversion H; subst s'. eapply TTaskSender; eauto.
 Qed.
 
 End Steps.
+
+Lemma senders_rm s r : senders (rm_sender s r) = del_key (senders s) (KRule r).  Proof. apply rm_sender_frame. Qed.
+Lemma subs_rm s r : subs (rm_sender s r) = subs s.  Proof. apply rm_sender_frame. Qed.
+Lemma streams_rm s r : streams (rm_sender s r) = streams s.  Proof. apply rm_sender_frame. Qed.
+Lemma adds_rm s r : adds (rm_sender s r) = adds s.  Proof. apply rm_sender_frame. Qed.
+Lemma drops_rm s r : drops (rm_sender s r) = drops s.  Proof. apply rm_sender_frame. Qed.
+Lemma tasks_rm s r : tasks (rm_sender s r) = tasks s.  Proof. apply rm_sender_frame. Qed.
+Lemma reader_rm s r : reader (rm_sender s r) = reader s.  Proof. apply rm_sender_frame. Qed.
+Lemma socket_rm s r : socket (rm_sender s r) = socket s.  Proof. apply rm_sender_frame. Qed.
+Lemma incoming_rm s r : incoming (rm_sender s r) = incoming s.  Proof. apply rm_sender_frame. Qed.
+Lemma dead_rm s r : dead (rm_sender s r) = dead s.  Proof. apply rm_sender_frame. Qed.
+Lemma cloned_rm s r : cloned (rm_sender s r) = cloned s.  Proof. apply rm_sender_frame. Qed.
+Lemma length_chans_rm s r : length (chans (rm_sender s r)) = length (chans s).  Proof. apply rm_sender_frame. Qed.
+#[export] Hint Rewrite senders_rm subs_rm streams_rm adds_rm drops_rm tasks_rm reader_rm socket_rm incoming_rm dead_rm cloned_rm
+  length_chans_rm : rms.
 
 Lemma length_close_all s : length (close_all s) = length (chans s).
 Proof. unfold close_all. now rewrite map_length, combine_length, seq_length, Nat.min_id. Qed.
